@@ -15,7 +15,7 @@ shift
 SCR=$(mktemp -d /dev/shm/verif-XXXXXX)
 trap 'rm -rf "$SCR"' EXIT
 case "$ID" in
-  C04|C11|C12|C14|C16) BIN=schedcheck; LEVEL=2 ;;
+  C04|C11|C12|C14|C16|TOY) BIN=schedcheck; LEVEL=3 ;;
   *) BIN=seqcheck; LEVEL=1 ;;
 esac
 if [ -n "${VERIF_BIN:-}" ]; then BIN=$VERIF_BIN; fi
